@@ -38,7 +38,15 @@ def _curves_for(n, seed):
     return out
 
 
-def _query_events(P, metric, queries, exprs=None):
+def _offset_curve(n, seed):
+    """heights far from the origin relative to their spread (exactly representable): R2 is translation invariant, so
+    the definition is unchanged, but algebraically equal one-pass formulas cancel catastrophically here."""
+    import random
+    rng = random.Random(seed * 104729 + n)
+    return np.column_stack([np.arange(n, dtype=float), [float(2 ** 27 + rng.randint(0, 6)) for _ in range(n)]])
+
+
+def _query_events(P, metric, queries, exprs=None, rel=1e-9):
     """run a history against one shared dict and against fresh caches; returns one event per query."""
     import kneeliverse.evaluation as ev
     import kneeliverse.metrics as metrics
@@ -69,7 +77,7 @@ def _query_events(P, metric, queries, exprs=None):
         if amb or not (math.isfinite(d) and math.isfinite(v1)):
             e["defcls"] = "ambiguous"
         else:
-            e["defcls"] = "equal" if numeric.close(v1, d, rel=1e-9, ab=1e-12) else "differs"
+            e["defcls"] = "equal" if numeric.close(v1, d, rel=rel, ab=1e-12 if rel <= 1e-9 else 1e-9) else "differs"
         e["nonneg"] = bool(v1 >= 0) or math.isnan(v1)
         e["perfect"] = "na"
         if len(S) == n:
@@ -80,7 +88,7 @@ def _query_events(P, metric, queries, exprs=None):
     return events
 
 
-def _rmse_mip(P, S):
+def _rmse_mip(P, S, rel=1e-9):
     """global RMSE / MIP observables for one breakpoint set: list of (clause, detail) mismatches."""
     import kneeliverse.evaluation as ev
     bad = []
@@ -92,12 +100,13 @@ def _rmse_mip(P, S):
         d = costdef.global_rmse_def(P, S)
         if not (_bits(r1) == _bits(r2) == _bits(r3)):
             bad.append(("cache-transparent", {"fn": "compute_global_rmse", "S": S, "values": [r1, r2, r3]}))
-        if not numeric.close(r1, d, rel=1e-9, ab=1e-12):
+        ab = 1e-12 if rel <= 1e-9 else 1e-7
+        if not numeric.close(r1, d, rel=rel, ab=ab):
             bad.append(("rmse-is-interpolation-rmse", {"S": S, "got": float(r1), "expected": d}))
         if len(S) >= 3:
             m, mad = ev.mip(P, np.array(S))
             dm, dmad = costdef.mip_def(P, S)
-            if not (numeric.close(m, dm, rel=1e-9, ab=1e-12) and numeric.close(mad, dmad, rel=1e-9, ab=1e-12)):
+            if not (numeric.close(m, dm, rel=rel, ab=ab) and numeric.close(mad, dmad, rel=rel, ab=ab)):
                 bad.append(("mip-definition", {"S": S, "got": [float(m), float(mad)], "expected": [dm, dmad]}))
     except Exception as ex:
         bad.append(("returns", {"fn": "compute_global_rmse/mip", "S": S, "raised": repr(ex)[:200]}))
@@ -126,8 +135,11 @@ def _replay_history(item):
     queries = [q["S"] for q in b["log"]]
     exprs = [q["expr"] for q in b["log"]]
     out = []
-    for P in _curves_for(n, seed):
-        evs = _query_events(P, metric, queries, exprs)
+    todo = [(P, 1e-9) for P in _curves_for(n, seed)]
+    if metric == "r2":
+        todo.append((_offset_curve(n, seed), 1e-6))
+    for P, rel in todo:
+        evs = _query_events(P, metric, queries, exprs, rel)
         for e, q in zip(evs, b["log"]):
             if e["outcome"] == "returned":
                 exp_keys = sorted([list(k) for k in q["keys"]])
@@ -139,7 +151,7 @@ def _replay_history(item):
             out.append((fb[0], {k: fb[1].get(k) for k in ("S", "value", "expected", "outcome")}, P.tolist()))
         if metric == "r2":            # RMSE / MIP ride along once per history
             for S in queries[:1]:
-                for clause, detail in _rmse_mip(P, S):
+                for clause, detail in _rmse_mip(P, S, rel):
                     out.append((clause, detail, P.tolist()))
     return out
 
@@ -154,16 +166,20 @@ def _record_random(item):
         P[:, 1] += 0.5
     n = len(P)
     metric = rng.choice(METRICS)
+    rel = 1e-9
+    if metric == "r2" and rng.random() < 0.3:       # heights far from the origin (R2 is translation invariant)
+        P[:, 1] = np.round(P[:, 1] * 8) / 8 + float(2 ** 26)
+        rel = 1e-6
     queries = []
     for _ in range(rng.randint(1, 8)):
         k = rng.randint(0, n - 2)
         queries.append(sorted(set([0, n - 1] + rng.sample(range(n), k))))
     if rng.random() < 0.3:
         queries.append(list(range(n)))
-    evs = _query_events(P, metric, queries)
+    evs = _query_events(P, metric, queries, None, rel)
     extra = []
     for S in queries[:2]:
-        extra += _rmse_mip(P, S)
+        extra += _rmse_mip(P, S, rel)
     case = {"id": cid, "n": n, "metric": metric,
             "events": [{k: e[k] for k in ("S", "outcome", "keys", "tss", "shared_eq_fresh", "defcls", "nonneg", "perfect")} for e in evs]}
     return case, {"points": P.tolist(), "metric": metric, "queries": queries, "values": [(e.get("value"), e.get("expected")) for e in evs]}, extra
